@@ -9,6 +9,7 @@ import (
 	"io"
 	"log"
 	"os"
+	"time"
 
 	"github.com/brocaar/lorawan"
 
@@ -59,6 +60,8 @@ func counter(r *cq.RNG) uint32 {
 }
 
 func encFrm(k lorawan.AES128Key, up bool, da lorawan.DevAddr, fc uint32, data []byte) (out []byte, s string) {
+	cases.Begin(fmt.Sprintf("EncryptFRMPayload:key=%x:up=%v:devaddr=%x:fcnt=%d:data=%x", k[:], up, da[:], fc, data), nil)
+	defer cases.End()
 	defer func() {
 		if r := recover(); r != nil {
 			out, s = nil, cq.Panic
@@ -75,6 +78,8 @@ func encFrm(k lorawan.AES128Key, up bool, da lorawan.DevAddr, fc uint32, data []
 }
 
 func encFOpts(k lorawan.AES128Key, a, up bool, da lorawan.DevAddr, fc uint32, data []byte) (out []byte, s string) {
+	cases.Begin(fmt.Sprintf("EncryptFOpts:key=%x:afcntdown=%v:up=%v:devaddr=%x:fcnt=%d:data=%x", k[:], a, up, da[:], fc, data), nil)
+	defer cases.End()
 	defer func() {
 		if r := recover(); r != nil {
 			out, s = nil, cq.Panic
@@ -208,6 +213,8 @@ var opAPI = []string{"PHYPayload.EncryptFOpts", "PHYPayload.DecryptFOpts", "PHYP
 	"PHYPayload.DecodeFOptsToMACCommands", "PHYPayload.DecodeFRMPayloadToMACCommands"}
 
 func apply(op int, p *lorawan.PHYPayload, k lorawan.AES128Key) (s string) {
+	cases.Begin(opAPI[op]+":"+framefmt.Phy(*p, 0), nil)
+	defer cases.End()
 	defer func() {
 		if r := recover(); r != nil {
 			s = cq.Panic
@@ -242,6 +249,87 @@ func methCase(s *cases.Set, op int, p lorawan.PHYPayload, k lorawan.AES128Key, k
 	s.Add(cases.Case{Term: fmt.Sprintf("CMeth %s %s %s %s", opNames[op], cq.Bytes(k[:]), t, o),
 		Key: fmt.Sprintf("%s%s:key=%s:%s", keyPrefix, opNames[op], hx(k[:]), t), Kind: kind, Nontrivial: true,
 		Replay: map[string]interface{}{"api": opAPI[op], "key": hx(k[:]), "frame": t, "observed": o}})
+}
+
+// aliasCase: the payload object the application put into the frame stays the application's. The object's bytes
+// live inside a larger buffer with guard bytes and spare capacity. After the method: the whole buffer is unchanged,
+// the frame's new payload does not share memory with it, and the same object put into a second frame (other DevAddr,
+// FCnt + 1) is encrypted as THAT frame's plaintext. Both calls are ordinary compared cases whose frame term is
+// printed from a private copy of the plaintext. field: false = FRMPayload (ops 2/3), true = FOpts (ops 0/1).
+func aliasCase(s *cases.Set, r *cq.RNG, op int, fopts bool, i int) {
+	n := 1 + r.Intn(40)
+	if fopts {
+		n = 1 + r.Intn(15)
+	}
+	spare := []int{0, 5, 16, 31}[i%4]
+	backing := make([]byte, 8+n+spare+8)
+	for j := range backing {
+		backing[j] = byte(0xa5 + j)
+	}
+	plain := r.Bytes(n)
+	copy(backing[8:], plain)
+	snapshot := append([]byte{}, backing...)
+	shared := &lorawan.DataPayload{Bytes: backing[8 : 8+n : 8+n+spare]}
+	k := key(r)
+	mts := []lorawan.MType{lorawan.UnconfirmedDataUp, lorawan.UnconfirmedDataDown, lorawan.ConfirmedDataUp, lorawan.ConfirmedDataDown}
+	base := framefmt.DataFrame(r, framefmt.Opt{MType: mts[i%4], Port: 1 + r.Intn(200), FCntHigh: i%3 != 0})
+	build := func(pl *lorawan.DataPayload, second bool) lorawan.PHYPayload {
+		m := *base.MACPayload.(*lorawan.MACPayload)
+		if second {
+			m.FHDR.DevAddr[i%4] ^= 0x10
+			m.FHDR.FCnt++
+		}
+		if fopts {
+			m.FHDR.FOpts = []lorawan.Payload{pl}
+		} else {
+			m.FRMPayload = []lorawan.Payload{pl}
+		}
+		q := base
+		q.MACPayload = &m
+		return q
+	}
+	field := func(q lorawan.PHYPayload) []byte {
+		m := q.MACPayload.(*lorawan.MACPayload)
+		l := m.FRMPayload
+		if fopts {
+			l = m.FHDR.FOpts
+		}
+		if len(l) == 1 {
+			if d, ok := l[0].(*lorawan.DataPayload); ok {
+				return d.Bytes
+			}
+		}
+		return nil
+	}
+	for pass, second := range []bool{false, true} {
+		private := &lorawan.DataPayload{Bytes: append([]byte{}, plain...)}
+		t := framefmt.Phy(build(private, second), 0)
+		q := build(shared, second)
+		noise.Step(nr)
+		o := apply(op, &q, k)
+		ks := fmt.Sprintf("alias:%s:frame%d:spare=%d:key=%s:%s", opNames[op], pass+1, spare, hx(k[:]), t)
+		rp := map[string]interface{}{"api": opAPI[op] + " on a frame whose payload object (" + fmt.Sprintf("%d bytes inside a %d-byte buffer, capacity +%d", n, len(backing), spare) + ") is kept by the caller; frame 2 reuses the same object",
+			"key": hx(k[:]), "frame": t, "observed": o, "payload_object_bytes_now": hx(shared.Bytes), "buffer_before": hx(snapshot), "buffer_now": hx(backing)}
+		s.Add(cases.Case{Term: fmt.Sprintf("CMeth %s %s %s %s", opNames[op], cq.Bytes(k[:]), t, o), Key: ks, Kind: "meth-alias", Nontrivial: true, Replay: rp})
+		if !bytes.Equal(backing, snapshot) {
+			s.Fail(cases.GoFail{Key: "caller-memory-modified:" + ks, What: opAPI[op] + " modified the payload object handed to it (or the memory around it): the caller's plaintext is overwritten", Replay: rp})
+			copy(backing, snapshot)
+		}
+		if o != cq.Err && o != cq.Panic {
+			if nf := field(q); len(nf) > 0 && op%2 == 0 {
+				// does the frame's new payload live in the caller's buffer?
+				before := append([]byte{}, nf...)
+				for j := range backing {
+					backing[j] ^= 0xff
+				}
+				sharedMem := !bytes.Equal(before, nf)
+				copy(backing, snapshot)
+				if sharedMem {
+					s.Fail(cases.GoFail{Key: "shares-caller-memory:" + ks, What: "the payload stored by " + opAPI[op] + " shares memory with the caller's payload object", Replay: rp})
+				}
+			}
+		}
+	}
 }
 
 func aesCase(s *cases.Set, k, b []byte, name string) {
@@ -334,7 +422,7 @@ func main() {
 	r := cq.NewRNG(seed)
 	nr = cq.NewRNG(seed ^ 0x9e3779b97f4a7c15)
 	s := cases.New("C03", dir, "LW.Corr.C03",
-		"FIPS-197 C.1 first; corpus: 16-byte FOpts through EncryptFOpts/DecryptFOpts (C03-1), FPort 0 with empty FRMPayload through DecryptFRMPayload (C05-1). func EncryptFRMPayload: payload lengths 0,1,15,16,17,31,32,33,255,256 + random (thorough: every length 0..255 in both directions + random up to 600), one 4112-byte payload (257 blocks: counter byte wraps), counters >= 2^16 in 70%, both directions; func EncryptFOpts: every length 0..15 x aFCntDown x direction, 16..20 (error). PHYPayload methods: frames with MAC commands in FOpts (0..15 bytes) and application payload, commands on port 0, no port, raw FOpts 16..20 bytes, an unencodable command in FOpts, raw (undecodable) bytes, FPort 0 together with FOpts (counter choice boundary), FPort absent with a non-empty FRMPayload (lengths 1..40, both directions, Encrypt and Decrypt); Encrypt then Decrypt chains; wrong payload types. History: unrelated library calls (internal/noise) before every compared call; neighbour families of the exported functions run back to back (base call, then the same call with one argument changed: single FCnt bits 16, 31, one more high and one low bit, FCnt + 2^16, direction, one DevAddr bit, key zeroed, one key bit, a longer payload with the same prefix, aFCntDown; then the base call again), each compared with model and specification; every exported-function call is repeated three times later in the process (reverse, same, shuffled order) and must give its first result. Go-side: applying a function twice restores the input. A case is non-trivial unless its byte string is empty.")
+		"FIPS-197 C.1 first; corpus: 16-byte FOpts through EncryptFOpts/DecryptFOpts (C03-1), FPort 0 with empty FRMPayload through DecryptFRMPayload (C05-1). func EncryptFRMPayload: payload lengths 0,1,15,16,17,31,32,33,255,256 + random (thorough: every length 0..255 in both directions + random up to 600), one 4112-byte payload (257 blocks: counter byte wraps), counters >= 2^16 in 70%, both directions; func EncryptFOpts: every length 0..15 x aFCntDown x direction, 16..20 (error). PHYPayload methods: frames with MAC commands in FOpts (0..15 bytes) and application payload, commands on port 0, no port, raw FOpts 16..20 bytes, an unencodable command in FOpts, raw (undecodable) bytes, FPort 0 together with FOpts (counter choice boundary), FPort absent with a non-empty FRMPayload (lengths 1..40, both directions, Encrypt and Decrypt); Encrypt then Decrypt chains; wrong payload types. Caller's memory: frames whose single payload object (FRMPayload, or a raw FOpts element) is kept by the caller and lives inside a guarded buffer with spare capacity 0/5/16/31: after Encrypt/Decrypt the buffer is unchanged, the stored payload shares no memory with it, and the same object put into a second frame (other DevAddr, FCnt + 1) gives that frame's model ciphertext (frame terms printed from a private copy of the plaintext). History: unrelated library calls (internal/noise) before every compared call; neighbour families of the exported functions run back to back (base call, then the same call with one argument changed: single FCnt bits 16, 31, one more high and one low bit, FCnt + 2^16, direction, one DevAddr bit, key zeroed, one key bit, a longer payload with the same prefix, aFCntDown; then the base call again), each compared with model and specification; every exported-function call is repeated three times later in the process (reverse, same, shuffled order) and must give its first result. Go-side: applying a function twice restores the input. A case is non-trivial unless its byte string is empty.")
 	s.ShardSize = 60
 	// official vector
 	fipsKey := make([]byte, 16)
@@ -414,6 +502,19 @@ func main() {
 	}
 	s.Exhaustive("EncryptFOpts lengths 0..20 x aFCntDown x uplink")
 	// ---- methods ----
+	s.Watchdog(3 * time.Second)
+	{
+		na := 24
+		if thorough {
+			na = 400
+		}
+		for i := 0; i < na; i++ {
+			aliasCase(s, r, []int{2, 3}[i%2], false, i)
+			if i%2 == 0 {
+				aliasCase(s, r, []int{0, 1}[(i/2)%2], true, i)
+			}
+		}
+	}
 	// FPort absent x FRMPayload lengths 1..40 x both directions: EncryptFRMPayload and DecryptFRMPayload (of the encrypted frame)
 	for l := 1; l <= 40; l++ {
 		for _, mt := range []lorawan.MType{lorawan.UnconfirmedDataUp, lorawan.UnconfirmedDataDown, lorawan.ConfirmedDataUp, lorawan.ConfirmedDataDown} {
